@@ -576,6 +576,116 @@ Proof.
   - intros E. injection E as E. subst pats. left. reflexivity.
 Qed.
 
+(* ---------------------------------------------------------------------- *)
+(** ** 4b. Empty lines of .goitignore are not entries (finding F55)          *)
+
+(* [ign_lines], one line at a time *)
+Lemma ign_lines_nil_cons : forall r, ign_lines ([] :: r) = ign_lines r.
+Proof. reflexivity. Qed.
+
+Lemma ign_lines_cons : forall (l : bytes) r, l <> [] ->
+  ign_lines (l :: r) =
+  match ign_line l, ign_lines r with
+  | Some x, Some xs => Some (x :: xs)
+  | _, _ => None
+  end.
+Proof. intros [|c l] r H; [contradiction H; reflexivity | reflexivity]. Qed.
+
+(* what the empty line was before the repair: the empty pattern, which —
+   wrapped as `(^|/)(?:)$` — matches every target that ends in '/', that is
+   every directory target *)
+Lemma empty_line_was_empty_pattern : ign_line [] = Some REps.
+Proof. vm_compute. reflexivity. Qed.
+
+Lemma empty_pattern_matches_every_dir_at : forall d b, boundary_match REps b (d ++ [c_slash]) = true.
+Proof.
+  induction d as [|c d IH]; intro b.
+  - cbn [app boundary_match]. rewrite beqb_refl. cbn [matches nullable andb orb].
+    apply orb_true_r.
+  - cbn [app boundary_match]. rewrite IH. apply orb_true_r.
+Qed.
+
+Lemma empty_pattern_matches_every_dir : forall d, boundary_match REps true (d ++ [c_slash]) = true.
+Proof. intro d. apply empty_pattern_matches_every_dir_at. Qed.
+
+(* blank lines change nothing, wherever they stand *)
+Theorem blank_lines_change_nothing : forall l1 l2,
+  ign_lines (l1 ++ [] :: l2) = ign_lines (l1 ++ l2).
+Proof.
+  induction l1 as [|l l1 IH]; intro l2.
+  - reflexivity.
+  - cbn [app]. destruct l as [|c l].
+    + rewrite !ign_lines_nil_cons. apply IH.
+    + rewrite !ign_lines_cons by discriminate. rewrite IH. reflexivity.
+Qed.
+
+(* more generally: only the non-empty lines count *)
+Definition nonempty_line (l : bytes) : bool := match l with [] => false | _ => true end.
+
+Theorem ign_lines_nonempty : forall ls, ign_lines ls = ign_lines (filter nonempty_line ls).
+Proof.
+  induction ls as [|l r IH]; [reflexivity|].
+  destruct l as [|c l]; cbn [filter nonempty_line].
+  - rewrite ign_lines_nil_cons. exact IH.
+  - rewrite !ign_lines_cons by discriminate. rewrite IH. reflexivity.
+Qed.
+
+(* the scanner: a line feed ends a line whatever came before it, so the text
+   after it is scanned from a fresh state *)
+Lemma scan_lines_aux_nl_split : forall b1 cur r,
+  scan_lines_aux cur (b1 ++ c_nl :: r) = scan_lines_aux cur (b1 ++ [c_nl]) ++ scan_lines r.
+Proof.
+  induction b1 as [|x b1 IH]; intros cur r.
+  - cbn [app]. rewrite !scan_lines_aux_cons, beqb_refl. reflexivity.
+  - cbn [app]. rewrite !scan_lines_aux_cons. destruct (beqb x c_nl).
+    + rewrite IH. reflexivity.
+    + apply IH.
+Qed.
+
+Lemma scan_lines_nl_split : forall b1 r,
+  scan_lines (b1 ++ c_nl :: r) = scan_lines (b1 ++ [c_nl]) ++ scan_lines r.
+Proof. intros b1 r. exact (scan_lines_aux_nl_split b1 [] r). Qed.
+
+Lemma scan_lines_nl_cons : forall r, scan_lines (c_nl :: r) = [] :: scan_lines r.
+Proof. reflexivity. Qed.
+
+Lemma scan_lines_crnl_cons : forall r, scan_lines (c_cr :: c_nl :: r) = [] :: scan_lines r.
+Proof. reflexivity. Qed.
+
+(* on the bytes of the file, for ALL b1 and b2 (they may themselves contain line
+   feeds, carriage returns, further blank lines): a second line feed right after
+   a line feed — an empty line — can be removed without changing what is loaded *)
+Theorem blank_line_bytes_change_nothing : forall b1 b2,
+  ign_load (Some (b1 ++ [c_nl] ++ [c_nl] ++ b2)) = ign_load (Some (b1 ++ [c_nl] ++ b2)).
+Proof.
+  intros b1 b2. cbn [app ign_load].
+  rewrite (scan_lines_nl_split b1 (c_nl :: b2)), (scan_lines_nl_split b1 b2).
+  rewrite scan_lines_nl_cons, blank_lines_change_nothing. reflexivity.
+Qed.
+
+(* the same for a line that holds a carriage return only (the scanner removes
+   it: the line is empty) and for an empty FIRST line *)
+Theorem blank_crlf_line_bytes_change_nothing : forall b1 b2,
+  ign_load (Some (b1 ++ [c_nl] ++ [c_cr; c_nl] ++ b2)) = ign_load (Some (b1 ++ [c_nl] ++ b2)).
+Proof.
+  intros b1 b2. cbn [app ign_load].
+  rewrite (scan_lines_nl_split b1 (c_cr :: c_nl :: b2)), (scan_lines_nl_split b1 b2).
+  rewrite scan_lines_crnl_cons, blank_lines_change_nothing. reflexivity.
+Qed.
+
+Theorem blank_first_line_changes_nothing : forall b,
+  ign_load (Some ([c_nl] ++ b)) = ign_load (Some b) /\
+  ign_load (Some ([c_cr; c_nl] ++ b)) = ign_load (Some b).
+Proof. intro b. split; reflexivity. Qed.
+
+(* a file of empty lines only loads as no file at all does *)
+Corollary only_blank_lines_load_builtin : forall n,
+  ign_load (Some (repeat c_nl n)) = Some [ign_builtin].
+Proof.
+  induction n as [|n IH]; [reflexivity|].
+  cbn [repeat]. rewrite <- IH. exact (proj1 (blank_first_line_changes_nothing (repeat c_nl n))).
+Qed.
+
 (* the target handed to [ign_match] is the path itself or the path plus '/' *)
 Lemma ignored_cases w pats p :
   ignored w pats p = ign_match pats p \/ ignored w pats p = ign_match pats (p ++ [c_slash]).
@@ -989,6 +1099,48 @@ Example entries_are_lines :
   end.
 Proof. vm_compute. reflexivity. Qed.
 
+(* F55: an empty line is not an entry.  "*.log\n\nout/\n" loads exactly as
+   "*.log\nout/\n" does (also with CRLF line ends) *)
+Definition ex_blank_file : bytes := str "*.log" ++ [c_nl] ++ [c_nl] ++ str "out/" ++ [c_nl].
+Definition ex_noblank_file : bytes := str "*.log" ++ [c_nl] ++ str "out/" ++ [c_nl].
+
+Example blank_line_skipped :
+  ign_load (Some ex_blank_file) = ign_load (Some ex_noblank_file) /\
+  ign_load (Some ex_blank_file) =
+  Some [ign_builtin;
+        RCat (RStar RAny) (RCat (RChar x2e) (lit_then (str "log") REps));
+        lit_then (str "out/") (RStar RAny)] /\
+  ign_load (Some (str "*.log" ++ [c_cr; c_nl] ++ [c_cr; c_nl] ++ str "out/" ++ [c_cr; c_nl]))
+  = ign_load (Some ex_noblank_file).
+Proof. repeat split; vm_compute; reflexivity. Qed.
+
+(* the former misbehaviour, gone: with the blank line every directory target
+   "d/" was matched (by the empty pattern the blank line became), so status hid
+   every untracked directory and `add .` staged nothing beneath any directory.
+   Now "d/" is matched only if an entry says so *)
+Example blank_line_hides_no_directory :
+  match ign_load (Some (str "*.log" ++ [c_nl] ++ [c_nl])) with
+  | Some pats => map (ign_match pats) [str "d/"; str "src/deep/"; str "d/f"; str "d/a.log"; str ".goit/"]
+  | None => []
+  end = [false; false; false; true; true].
+Proof. vm_compute. reflexivity. Qed.
+
+(* what the pre-repair loader produced for that file (the empty line as the
+   empty pattern) did match every directory target *)
+Example blank_line_formerly_hid_every_directory :
+  match ign_line (str "*.log"), ign_line [] with
+  | Some r1, Some r2 => map (ign_match [ign_builtin; r1; r2]) [str "d/"; str "src/deep/"; str "d/f"]
+  | _, _ => []
+  end = [true; true; false].
+Proof. vm_compute. reflexivity. Qed.
+
+(* a line of blanks only is NOT skipped (Goit does not trim ignore lines): it is
+   the entry " ", which hides a file or directory whose name ends in a blank *)
+Example blanks_only_line_is_an_entry :
+  ign_load (Some (str " " ++ [c_nl])) = Some [ign_builtin; lit_then (str " ") REps] /\
+  ign_load (Some (str " " ++ [c_nl])) <> ign_load (Some [c_nl]).
+Proof. split; [vm_compute; reflexivity | vm_compute; discriminate]. Qed.
+
 (* the single entries on their own *)
 Example out_entry_alone :
   match ign_line (str "out/") with
@@ -1038,3 +1190,12 @@ Print Assumptions deleted_paths_exact.
 Print Assumptions untracked_exact.
 Print Assumptions tracked_visible.
 Print Assumptions tracked_modified_iff.
+Print Assumptions blank_lines_change_nothing.
+Print Assumptions ign_lines_nonempty.
+Print Assumptions blank_line_bytes_change_nothing.
+Print Assumptions blank_crlf_line_bytes_change_nothing.
+Print Assumptions blank_first_line_changes_nothing.
+Print Assumptions only_blank_lines_load_builtin.
+Print Assumptions empty_pattern_matches_every_dir.
+Print Assumptions blank_line_skipped.
+Print Assumptions blank_line_hides_no_directory.
